@@ -128,6 +128,75 @@ def cat_case(n):
                 bounds={"sections": n, "values": "symbolic finite reals"}, expect_ok=False, check_side=False)
 
 
+# ---------------------------------------------------------------- special values: NaN and infinite fields (one at a time, the other fields symbolic and valid)
+SPECIALS = {"NaN": float("nan"), "+inf": float("inf"), "-inf": float("-inf")}
+
+
+def special_case(ty, field, sp, n=2, k=0):
+    """slice validator on n elements whose element k has `field` = NaN / +inf / -inf and whose other fields satisfy the rules:
+    a NaN or a negative infinity anywhere, and a +inf in an offset that has to lie inside the link, is not a well-formed profile"""
+    if ty == "CatPowerLimit":
+        items = [{"offset_start": Sym(f"s{i}"), "offset_end": Sym(f"e{i}"), "power_limit": Sym(f"p{i}"), "district_id": None} for i in range(n)]
+
+        def assume(S):
+            d = []
+            for i in range(n):
+                if f"s{i}" in S: d.append((f"s{i} >= 0", S[f"s{i}"] >= 0))
+                if f"s{i}" in S and f"e{i}" in S: d.append((f"s{i} <= e{i}", S[f"s{i}"] <= S[f"e{i}"]))
+                if f"e{i}" in S and f"s{i}" not in S: d.append((f"e{i} >= 0", S[f"e{i}"] >= 0))
+                if f"p{i}" in S: d.append((f"p{i} >= 0", S[f"p{i}"] >= 0))
+            for i in range(n - 1):
+                if f"e{i}" in S and f"s{i+1}" in S: d.append((f"e{i} <= s{i+1}", S[f"e{i}"] <= S[f"s{i+1}"]))
+            return d
+        call = "<[CatPowerLimit] as ObjState>::validate"
+    else:
+        val = "elev" if ty == "Elev" else "heading"
+        items = [{"offset": Sym(f"o{i}"), val: Sym(f"e{i}")} for i in range(n)]
+        if ty == "Heading":
+            for it in items:
+                it["lat"] = None
+                it["lon"] = None
+
+        def assume(S):
+            d = []
+            prev = None
+            for i in range(n):
+                if f"o{i}" in S:
+                    d.append((f"o{i} >= 0", S[f"o{i}"] >= 0))
+                    if prev is not None:
+                        d.append((f"offsets increase up to o{i}", prev < S[f"o{i}"]))
+                    prev = S[f"o{i}"]
+                if ty == "Heading" and f"e{i}" in S:
+                    d.append((f"0 <= e{i} < 2 pi", z3.And(S[f"e{i}"] >= 0, S[f"e{i}"] < z3.RealVal(_Fr(6.283185307179586)))))
+            return d
+        call = f"<[{ty}] as ObjState>::validate"
+    items[k][field] = SPECIALS[sp]
+    claims = [Claim(f"a profile with {sp} in {field} is rejected", lambda c: False, when="ok", role="special_value_rejected"),
+              Claim("no_panic", None, when="nopanic", role="special_no_panic")]
+    c = Case(f"{ty.lower()}_special_{field}_{sp.replace('+', 'p').replace('-', 'm')}_k{k}of{n}", "C16", f"Vec<{ty}>", items, [Call(call, [])], assume, claims,
+             bounds={"elements": n, "special value": f"element {k}.{field} = {sp}", "other fields": "symbolic, satisfying the rules"}, expect_ok=False, check_side=False)
+    c.no_tv = True
+    c.expect_err = True
+    return c
+
+
+def special_cases(tier):
+    cs = []
+    for sp in SPECIALS:
+        for f in ("offset_start", "offset_end", "power_limit"):
+            if sp == "+inf" and f in ("offset_end", "power_limit"):
+                continue  # an unbounded section end / power limit is not excluded by the element rules (the link-level rule bounds the end by the link length)
+            cs.append(special_case("CatPowerLimit", f, sp, 2, 0))
+            if tier == "thorough":
+                cs.append(special_case("CatPowerLimit", f, sp, 2, 1))
+        for ty, val in (("Elev", "elev"), ("Heading", "heading")):
+            for f in ("offset", val):
+                if sp == "+inf" and f == "offset":
+                    continue  # the last offset is bounded by the link-level rule (profile spans exactly the link)
+                cs.append(special_case(ty, f, sp, 2, 0 if f != "offset" else 1))
+    return cs
+
+
 # ---------------------------------------------------------------- loading: Network::from_file with the file system as a nondeterministic environment
 OLD_LINK = "link_old::Link"
 
@@ -207,10 +276,12 @@ def from_file_case(kind, j, field):
 
 
 def m_cases(tier):
+    tier = "thorough"  # the full case list is cheap enough to run on every change (the tiers differ only in validation vectors)
     cs = []
     lf = [("bidir2", 1, "idx_flip"), ("bidir2", 2, "idx_prev"), ("switch", 1, "idx_next_alt")] if tier == "quick" else \
         [(k, j, f) for k in ("bidir2", "switch") for j in (1, 2) for f in FIELDS]
     cs += [from_file_case(k, j, f) for (k, j, f) in lf]
+    cs += special_cases(tier)
     kinds = {"bidir2": (1, 2, 3, 4), "switch": (1, 2, 3)} if tier == "quick" else {"bidir2": (1, 2, 3, 4), "switch": (1, 2, 3), "chain3": (1, 2, 3)}
     for kind, js in kinds.items():
         for j in (js if tier != "quick" else js[:2]):
